@@ -16,5 +16,7 @@ func init() {
 
 func runC01(c *fw.Ctx) {
 	r11(c)
+	r12(c)
+	r13(c)
 	r14(c)
 }
